@@ -21,10 +21,16 @@ import itertools
 from hypothesis import strategies as st
 
 from bumble import hci
+import bumble.vendor.android.hci  # noqa: F401  (registers the vendor command classes; see below)
+import bumble.vendor.zephyr.hci  # noqa: F401
 from bumble.controller import Controller
 from bumble.host import Host
 from vlib import specgen, vloop, world
 from vlib.runner import HarnessError
+
+# The command registry is process-wide and the vendor modules add classes to it when they are imported. They are imported
+# here, up front, so that a case behaves the same in a fresh replay process as in the middle of a run (a vendor command
+# is then a registered class with its own return-parameter parser everywhere, as in an application that uses a driver).
 
 PROPERTY = 'C03'
 LEVEL = 'exploration'
@@ -815,8 +821,9 @@ def run(ctx) -> None:
 
         ctx.hyp(f'alone/{cls.__name__}', one, class_packet(cls), max_examples=ctx.pick(4, 60))
     ctx.extra['classes_sent_alone'] = n
-    ctx.hyp('programs', lambda c: run_case(ctx, c), program_strategy(), max_examples=ctx.n(2500, 320000))
 
+    # the directed families come first and the bulk of random programs last: the tier's wall-clock budget (on a
+    # loaded machine) then cuts into the largest family instead of silently skipping the small directed ones
     def one_object_program(c):
         ctx.label('object_program')
         run_case(ctx, c)
@@ -832,6 +839,7 @@ def run(ctx) -> None:
     ctx.hyp('link_programs', family('link_program'), link_programs(), max_examples=ctx.n(500, 32000))
     ctx.hyp('cis_programs', family('cis_program'), cis_programs(), max_examples=ctx.n(300, 20000))
     ctx.hyp('credit_programs', family('credit_program'), credit_programs(), max_examples=ctx.n(250, 16000))
+    ctx.hyp('programs', lambda c: run_case(ctx, c), program_strategy(), max_examples=ctx.n(2500, 320000))
     ctx.floor('object_program', 100)
     # every procedure of the statement is entered (accepted as pending) and also ends well, on live links
     for kind in sorted(set(PROCEDURES.values())):
